@@ -39,6 +39,11 @@ TRUSTED = [
     "arguments (identity of a bound argument = its type and value, which is what the key formatter renders)",
     "harness: virtual clock (harness/vtime.py), canonicalisation of results, the Python spec oracle (harness/decorhist.py), "
     "the AST reader of _STR_TO_DELTA (harness/ttlgen.py)",
+    "a caller of the basic decorator may be cancelled while the function is running (the harness holds the function at its first await until the "
+    "caller's task is cancelled, then lets it go on): under thunder protection the call completes, without it the execution is cut short before "
+    "it computed anything and counts as no execution",
+    "a result-dependent ttl callable of the harness behaves like a user's: an exception is what isinstance(result, Exception) says, any object it "
+    "does not know is an ordinary answer; what it is handed after an execution is compared with the outcome of that execution",
     "sequential calls only (single-flight / concurrency is C07); a stream is drained, or its consumer stops after n elements (aclose / dropped and "
     "finalised by the event loop / cancelled between two items) or is cancelled while the generator works on a given step; every dropped stream "
     "is finalised before the next call starts; no time passes during a replay",
@@ -51,7 +56,8 @@ TRUSTED = [
 PARTIAL = ("not modelled / not sampled: ttl=None and ttl=0 ('no ttl'; theorems treat 0 as such), non-dyadic TTLs, non-ASCII duration strings "
            "(str.isdigit/lower/strip are modelled on ASCII), a condition callable that returns an exception instance for a normal result, "
            "a function that *returns* an exception instance, consumers that let time pass while reading a replay or leave a stream suspended while "
-           "other calls are made (interleaved consumers are C07's kind of history), cancellation of a call of the basic decorator, "
+           "other calls are made (interleaved consumers are C07's kind of history), callers that JOIN an in-flight call and cancellation in the middle "
+           "of a slow function (the function is held before it does any work), "
            "equal-but-different arguments beyond int / bool / float (IntEnum members, Decimal), "
            "the legacy marker value True, tags=, lock=, upper=; exceptions that are not `Exception`s (CancelledError, KeyboardInterrupt), "
            "__traceback__ / __context__ of a replayed exception, exception classes that do not survive pickling under secret=; "
@@ -59,8 +65,15 @@ PARTIAL = ("not modelled / not sampled: ttl=None and ttl=0 ('no ttl'; theorems t
            "proposed_fixes/C02_falsy_exception_returned.diff, shape not drawn until repaired or registered)")
 
 SIMPLE_CONDS = ["all", "nn", "we:", "we:1", "we:0+2", "oe:", "oe:1", "tc:0", "tc:1", "tc:8",
-                "fn:TTTFFF", "fn:TFTXFX", "fn:yyyyyy", "fn:zTyXyT", "fn:TTFXXX", "fn:FFFFFF", "fn:XXXXXX"]
+                "fn:TTTFFF", "fn:TFTXFX", "fn:yyyyyy", "fn:zTyXyT", "fn:TTFXXX", "fn:FFFFFF", "fn:XXXXXX",
+                # time_condition= together with condition=: both have to accept
+                "tc:0&nn", "tc:1&nn", "tc:1&we:1", "tc:0&oe:", "tc:1&fn:TFTXFX", "tc:8&all"]
 ITER_CONDS = ["all", "nn", "we:", "we:1", "oe:", "fn:TTTFFF", "fn:TFTXFX", "fn:yyyXXX", "fn:yzyXyX", "fn:TTTXXX", "fn:XXXXXX"]
+
+
+SIGS = ["ab", "ab", "ab", "kw", "kw", "va", "vk"]
+KEYTPLS = {"ab": [None, None, "{a}:{b}", "k-{a}-{b}"], "kw": [None, None, "{a}:{b}", "k-{a}-{b}"],
+           "va": [None, None, "{a}:{__args__}", "k-{a}-{__args__}"], "vk": [None, None, "{a}:{__kwargs__}", "k-{a}-{__kwargs__}"]}
 
 
 def ttl_choices(rng):
@@ -104,11 +117,15 @@ def advances(rng, t):
     return rng.choice([1, 1, t - 1 if t > 1 else 1, t, t, t + 1, max(1, t // 2), 2 * t, 4, 8])
 
 
-def key_palette(rng, nkeys):
+def key_palette(rng, nkeys, sig="ab"):
     """the bound-argument tuples (key ids into dh.ARGS) one case calls its function with, and a preferred call form.
     2 in 5 cases draw them from ONE equality class - tuples that are == / hash-equal but are different arguments
     (1 / True / 1.0, 0 / False / 0.0, 2 / 2.0): every pair of them, in both orders, has to be kept apart; such cases
     mostly stick to one call form (whatever confuses equal values does so for one spelling of the call)."""
+    if sig in ("va", "vk"):
+        # functions with *rest / **opts: tuples that differ only in the overflow, in the call form that has no keyword (va)
+        n = 8       # (the two colliding tuples of the known finding at the end of ARGS_VA are not drawn)
+        return rng.sample(range(n), min(n, max(2, nkeys))), 0, (0.8 if sig == "va" else 0.4)
     r = rng.random()
     if r < 0.4:
         cls = rng.choice(dh.EQ_CLASSES + [dh.EQ_CLASSES[0]])
@@ -129,11 +146,16 @@ def gen_simple(rng, iterish=False) -> dict:
     cond = rng.choice(SIMPLE_CONDS)
     nops = rng.randint(2, 14)
     nkeys = rng.choice([1, 2, 2, 4])
-    palette = key_palette(rng, nkeys)
+    sig = rng.choice(SIGS)
+    palette = key_palette(rng, nkeys, sig)
+    lost = rng.choice([0.0, 0.0, 0.0, 0.25, 0.5])      # how often a caller of this case is cancelled while the function runs
     ops = []
     for _ in range(nops):
         if rng.random() < 0.62:
-            ops.append(draw_call(rng, palette))
+            op = draw_call(rng, palette)
+            if rng.random() < lost:
+                op.append("lost")
+            ops.append(op)
         else:
             ops.append(["adv", advances(rng, t)])
     config = rng.choice(["plain", "plain", "secret"])
@@ -142,8 +164,8 @@ def gen_simple(rng, iterish=False) -> dict:
         k = rng.choice(["v", "v", "v", "n", "n", f"f{rng.randrange(4)}", exc_kind(rng, config), exc_kind(rng, config)])
         d = rng.choice([0, 0, 0, 1, 2, max(1, t - 1), t, 9])
         script.append(f"{k}:{d}" if d else k)
-    return {"kind": "simple", "config": config, "sig": rng.choice(["ab", "ab", "kw"]),
-            "keytpl": rng.choice([None, None, "{a}:{b}", "k-{a}-{b}"]), "prefix": rng.choice(["", "", "p"]),
+    return {"kind": "simple", "config": config, "sig": sig,
+            "keytpl": rng.choice(KEYTPLS[sig]), "prefix": rng.choice(["", "", "p"]),
             "protected": rng.random() < 0.3, "cond": cond, "condv": rng.randrange(4), "ttl": ttl, "ttlv": rng.randrange(2),
             "script": script, "ops": ops}
 
@@ -163,7 +185,8 @@ def gen_iter(rng) -> dict:
     cond = rng.choice(ITER_CONDS)
     nops = rng.randint(2, 12)
     nkeys = rng.choice([1, 1, 2, 3])
-    palette = key_palette(rng, nkeys)
+    sig = rng.choice(SIGS)
+    palette = key_palette(rng, nkeys, sig)
     early = rng.choice([0.0, 0.0, 0.3, 0.6])       # how often a consumer of this case stops before the end
     ops = []
     for _ in range(nops):
@@ -189,8 +212,8 @@ def gen_iter(rng) -> dict:
             steps.append(f"{k}:{d}" if d else k)
         fd = rng.choice([0, 0, 0, 1, max(1, t - 1), t, t + 1])
         runs.append((",".join(steps) or "-") + f"/{fd}")
-    return {"kind": "iter", "config": config, "sig": rng.choice(["ab", "ab", "kw"]),
-            "keytpl": rng.choice([None, None, "{a}:{b}"]), "cond": cond, "condv": rng.randrange(4), "ttl": ttl,
+    return {"kind": "iter", "config": config, "sig": sig,
+            "keytpl": rng.choice(KEYTPLS[sig][:3]), "cond": cond, "condv": rng.randrange(4), "ttl": ttl,
             "ttlv": rng.randrange(2), "script": runs, "ops": ops}
 
 
@@ -260,7 +283,9 @@ def shrink(case, pred):
     for i, op in enumerate(small["ops"]):
         if len(op) > 3 and op[3]:
             options = [op[:3]]
-            if op[3][0] == "take":
+            if op[3] == "lost":         # a caller of the basic decorator that is cancelled: try a caller that stays
+                pass
+            elif op[3][0] == "take":
                 options += [op[:3] + [["take", n, how]] for n in range(1, op[3][1] + 1) for how in range(0, op[3][2] + 1)]
             else:
                 options += [op[:3] + [["cancel", n]] for n in range(0, op[3][1])]
@@ -281,13 +306,37 @@ def shrink(case, pred):
     return small
 
 
+B2_SIGNATURE = "C02:iterator-chunk-key-is-a-marker-key"
+B1_SIGNATURE = "C02_time_condition_keeps_condition:condition-dropped-by-time-condition"
+
+
+def side_finding(case):
+    """cases that can only fail through one of the adjudicated candidate defects, which have signatures of their own"""
+    if "&" in case["cond"]:
+        return "B1"
+    if case["kind"] == "iter" and case["sig"] == "va" and {o[1] for o in case["ops"] if o[0] == "call"} >= set(dh.VA_COLLIDING):
+        return "B2"
+    return None
+
+
 def signature_of(case, trace, idx, msg) -> str:
+    if side_finding(case) == "B2":
+        # candidate defect (2) of round 4: "<key>:<i>" of one call is the marker key of another call
+        return B2_SIGNATURE
+    if "&" in case["cond"] and ("rejected" in msg or "executed although" in msg or "started although" in msg):
+        # condition= together with time_condition=: the decorator's condition is replaced by the time condition
+        # (candidate defect (1) of round 4; repaired by proposed_fixes/pending/C02_time_condition_keeps_condition.diff)
+        return B1_SIGNATURE
     if "not the exception that was raised" in msg:
         return "replayed-exception-differs-from-raised"
     if "returned:" in msg or "yielded:" in msg:
         return "exception-returned-instead-of-raised"
     if "compare equal to but are not the arguments" in msg:
         return "answered-with-result-of-equal-but-different-arguments"
+    if "are not the arguments" in msg:
+        return "answered-with-result-of-other-arguments"
+    if "the ttl callable was handed" in msg:
+        return "ttl-callable-not-given-the-result"
     if "a run that never ended" in msg:
         return "iter-replays-interrupted-run"
     if case["kind"] == "iter":
@@ -347,6 +396,11 @@ def describe_case(case) -> list[str]:
     elif cond[:3] in ("we:", "oe:"):
         ctext = "condition=%s(%s)" % ("with_exceptions" if cond[0] == "w" else "only_exceptions",
                                       ", ".join("E" + x for x in cond[3:].split("+") if x))
+    elif "&" in cond:
+        inner = cond.split("&", 1)[1]
+        itext = names.get(inner) or ("%s(%s)" % ("with_exceptions" if inner[0] == "w" else "only_exceptions", ", ".join("E" + x for x in inner[3:].split("+") if x))
+                                     if inner[:3] in ("we:", "oe:") else "<callable: %s>" % " ".join(inner[3:]))
+        ctext = f"time_condition={int(cond.split('&')[0][3:]) / 8}, condition={itext}"
     elif cond.startswith("tc:"):
         ctext = f"time_condition={int(cond[3:]) / 8}"
     else:
@@ -355,7 +409,7 @@ def describe_case(case) -> list[str]:
     out = ["cache.setup('mem://'%s)" % (", secret=..." if case["config"] == "secret" else ""),
            "@cache.%s(ttl=%s, key=%r, %s%s)" % ("cache" if simple else "iterator", describe_ttl(case["ttl"]), case.get("keytpl"), ctext,
                                              (", prefix=%r, protected=%r" % (case.get("prefix", ""), case.get("protected", False))) if simple else ""),
-           "async def f(%s): ..." % ("a, b=0" if case["sig"] == "ab" else "a, *, b=0")]
+           "async def f(%s): ..." % dh.SIG_TEXT[case["sig"]]]
     for n, b in enumerate(case["script"]):
         if simple:
             k, d = dh.parse_beh(b)
@@ -372,12 +426,14 @@ def describe_case(case) -> list[str]:
         if op[0] == "adv":
             out.append(f"<{op[1] / 8} s pass>")
         else:
-            a, b = dh.ARGS[op[1]]
-            fs = dh.forms(case["sig"], a, b)
+            fs = dh.call_forms(case["sig"], op[1])
             args, kwargs = fs[op[2] % len(fs)]
             call = ", ".join([repr(x) for x in args] + [f"{k}={v!r}" for k, v in kwargs.items()])
             mode = op[3] if len(op) > 3 and op[3] and not simple else None
-            if mode is None:
+            if simple and len(op) > 3 and op[3] == "lost":
+                out.append(f"await f({call})   # the caller's task is cancelled while the function is running" +
+                           (" (thunder protection: the call itself goes on)" if case.get("protected") else " (no thunder protection: so is the function)"))
+            elif mode is None:
                 out.append(("await f(%s)" if simple else "[x async for x in f(%s)]") % call)
             elif mode[0] == "take":
                 how = ["break out of the loop and `await stream.aclose()`", "break out of the loop and drop the stream (the event loop finalises it)",
@@ -415,16 +471,44 @@ def interesting(case, trace, log) -> set[str]:
     if case["kind"] == "simple":
         by_n = {x["n"]: x for x in log}
         first_form = {}
+        lost_execs = set()
         seen = 0
         for t, op in zip(trace, case["ops"]):
             if "key" not in t:
                 continue
             got, how = t["impl"].rsplit(" ", 1)
             k, now = t["key"], t["now"]
+            if how == "cut":
+                out.add("caller-cancelled-without-protection:execution-cut-short")
+                continue
             if how == "run":
                 x = log[seen]
                 seen += 1
                 first_form[x["n"]] = op[2]
+                if got == "lost":
+                    out.add("caller-cancelled-under-thunder-protection:call-completes")
+                    lost_execs.add(x["n"])
+                for y in log[:seen - 1]:
+                    if y["n"] in lost_execs and y["key"] == k and dh.cond_accepts_spec(cond, y["kind"], y["dur"]):
+                        out.add("re-executed-after-ttl-of-a-result-whose-caller-was-cancelled")
+                if case["sig"] in ("va", "vk"):
+                    alpha = dh.alphabet(case["sig"])
+                    for y in log[:seen - 1]:
+                        if (y["key"] != k and alpha[y["key"]][0] == alpha[k][0] and "t" in y and dh.cond_accepts_spec(cond, y["kind"], y["dur"])):
+                            tt = dh.ttl_ticks_spec(ttl, y["key"], y["kind"])
+                            if tt == 0 or now - y["t"] < tt:
+                                out.add("executed-beside-fresh-result-differing-only-in-the-variadic-overflow:" + case["sig"] +
+                                        (":same-call-form" if first_form.get(y["n"]) == op[2] else ""))
+                if ttl.startswith("cr:") and x["kind"].startswith("e") and dh.cond_accepts_spec(cond, x["kind"], x["dur"]):
+                    ps = ttl[3:].split(",")
+                    if dh.plain_ticks_spec(ps[3]) != dh.plain_ticks_spec(ps[0]):
+                        out.add("exception-stored-with-a-ttl-of-its-own")
+                if "&" in cond:
+                    tc, inner = cond.split("&", 1)
+                    slow = x["dur"] > int(tc[3:])
+                    inner_ok = dh.cond_accepts_spec(inner, x["kind"], x["dur"])
+                    out.add("time-condition-and-condition:" + ("both-accept" if slow and inner_ok else "slow-but-condition-rejects" if slow
+                                                             else "fast-but-condition-accepts" if inner_ok else "both-reject"))
                 acc = dh.cond_accepts_spec(cond, x["kind"], x["dur"])
                 if not acc:
                     out.add("rejected-result-not-stored" if not x["kind"].startswith("e") else "unselected-exception-not-stored")
@@ -439,7 +523,7 @@ def interesting(case, trace, log) -> set[str]:
                     out.add("truthy-non-bool-condition")
                 for y in log[:seen - 1]:
                     # a fresh stored result for EQUAL BUT DIFFERENT arguments (1 / True / 1.0 ...) exists: this call must not see it
-                    if y["key"] != k and y["key"] in dh.EQ_CLASS_OF.get(k, ()) and "t" in y and dh.cond_accepts_spec(cond, y["kind"], y["dur"]):
+                    if y["key"] != k and y["key"] in dh.eq_class_of(case["sig"], k) and "t" in y and dh.cond_accepts_spec(cond, y["kind"], y["dur"]):
                         tt = dh.ttl_ticks_spec(ttl, y["key"], y["kind"])
                         if tt == 0 or now - y["t"] < tt:
                             same_form = first_form.get(y["n"]) == op[2]
@@ -450,6 +534,12 @@ def interesting(case, trace, log) -> set[str]:
                 src = [y for y in log[:seen] if y["key"] == k and y.get("res") == got]
                 if src:
                     y = src[-1]
+                    if y["n"] in lost_execs:
+                        out.add("hit-on-result-of-a-call-whose-caller-was-cancelled")
+                    if ttl.startswith("cr:") and y["kind"].startswith("e"):
+                        ps = ttl[3:].split(",")
+                        if dh.plain_ticks_spec(ps[3]) > dh.plain_ticks_spec(ps[0]) and now - y["t"] >= dh.plain_ticks_spec(ps[0]):
+                            out.add("exception-replayed-beyond-the-ttl-of-an-ordinary-answer")
                     tt = dh.ttl_ticks_spec(ttl, k, y["kind"])
                     if now - y["t"] == tt - 1:
                         out.add("hit-one-tick-before-deadline")
@@ -493,7 +583,7 @@ def interesting(case, trace, log) -> set[str]:
                             out.add("run-again-within-ttl-of-a-run-abandoned-after-2+-accepted-items")
                         if y["ended"] == "cancelled" and len(y["outs"]) >= 1 and yacc:
                             out.add("run-again-within-ttl-of-a-run-cancelled-after-1+-accepted-items")
-                    if (y["key"] != k and y["key"] in dh.EQ_CLASS_OF.get(k, ()) and y["complete"] and y["outs"]
+                    if (y["key"] != k and y["key"] in dh.eq_class_of(case["sig"], k) and y["complete"] and y["outs"]
                             and now - y["start"] < tt_of(y["key"]) and forms_of.get(y["n"]) == op[2]
                             and all(dh.cond_accepts_spec(cond, kd, 0, item=True) for kd in y["kinds"])):
                         out.add("run-beside-cached-run-of-equal-but-different-arguments:same-call-form")
@@ -682,6 +772,7 @@ def run(chk: Check) -> int:
     conds: dict[str, int] = {}
     samples = []
     batch_cases, batch_lines = [], []
+    b1_reported: list = []
 
     def flush():
         nonlocal found, evaluations
@@ -713,8 +804,14 @@ def run(chk: Check) -> int:
                 if len(samples) < 4 and len(case["ops"]) <= 7 and (len(samples) % 2 == 0) == (case["kind"] == "simple"):
                     samples.append({"case": case, "impl": [t["impl"] for t in trace], "states": sorted(st)})
             if found < 3 and (dh.oracle(case, trace, log) is not None or first_model_diff(trace, ans) is not None):
+                side = side_finding(case)
+                if side and side in b1_reported:
+                    continue        # a candidate defect with a signature of its own is reported once, not three times
                 if report(chk, case, origin, model):
-                    found += 1
+                    if side:
+                        b1_reported.append(side)
+                    else:
+                        found += 1
         batch_cases.clear()
         batch_lines.clear()
 
@@ -729,20 +826,23 @@ def run(chk: Check) -> int:
     flush()
 
     if proof is not None:
-        chk.proof_broken(proof, found > 0)
+        chk.proof_broken(proof, found > 0 or bool(b1_reported))
     chk.coverage.update({
         "evaluations": evaluations + tbl["n"],
         "distinct_nontrivial": len(distinct),
         "rule": "call histories of 2..14 ops (calls over up to 6 of the bound-argument tuples of decorhist.ARGS - 2 in 5 cases all from one class of "
                 "tuples that are == but different arguments: 1/True/1.0, 0/False/0.0, 2/2.0, mostly in one call form, both orders - in every "
-                "positional/keyword call form of two signatures, time advances around the ttl; iterator calls read by a consumer that drains the "
+                "positional/keyword call form of four signatures (f(a, b=0), f(a, *, b=0), f(a, *rest), f(a, **opts): for the variadic ones 8 tuples "
+                "that differ in the overflow), time advances around the ttl; callers of the basic decorator that are cancelled while the function "
+                "runs (with and without thunder protection); iterator calls read by a consumer that drains the "
                 "stream, stops after 1..4 elements (aclose / drop / cancelled between items) or is cancelled while the generator works on step "
                 "0..4) x scripted outcomes with durations (failures: 3 exception classes x %d payload "
-                "shapes, compared by complete observation) x 17 (simple) / 11 (iterator) conditions x " % len(dh.GENERATED_SHAPES) +
+                "shapes, compared by complete observation) x 23 (simple; 6 of them time_condition= together with condition=) / 11 (iterator) conditions x " % len(dh.GENERATED_SHAPES) +
                 "all TTL spelling families x plain/signed+pickled mem:// x key templates, generated from VERIF_SEED; a case is "
                 "non-trivial iff it reached at least one state listed under interesting_states_cases; distinct = distinct case dicts",
         "samples": samples,
         "argument_alphabet": [repr(t) for t in dh.ARGS],
+        "argument_alphabet_variadic": {"f(a, *rest)": [repr(t) for t in dh.ARGS_VA], "f(a, **opts)": [repr(t) for t in dh.ARGS_VK]},
         "equal_but_different_classes": [[repr(dh.ARGS[i]) for i in ids] for ids in dh.EQ_CLASSES],
         "corpus_cases": ncorpus,
         "history_cases": evaluations,
